@@ -26,11 +26,13 @@ class Cond:
 
     @property
     def path(self):
+        if os.path.isabs(self.module):
+            return self.module
         return os.path.join(ROOT, "vlib", "harness", self.module)
 
     @property
     def name(self):
-        return "%s:%s" % (self.module, self.func)
+        return "%s:%s" % (os.path.basename(self.module), self.func)
 
 
 @dataclasses.dataclass
@@ -51,9 +53,13 @@ class Obl:
 
 def _env():
     env = dict(os.environ)
-    env["PYTHONPATH"] = ROOT + os.pathsep + env.get("PYTHONPATH", "")
+    pp = [ROOT]
+    if os.path.realpath(REPO) != "/repo":
+        pp.insert(0, os.path.join(REPO, "src"))      # development only: analyse a scratch worktree instead of /repo
+    env["PYTHONPATH"] = os.pathsep.join(pp)
     env["PYTHONHASHSEED"] = "0"
     env["JOSERFC_VERIF"] = "1"
+    env["VERIF_TIER"] = os.environ.get("VERIF_TIER_EFFECTIVE", env.get("VERIF_TIER", "quick"))
     return env
 
 
